@@ -64,7 +64,7 @@ theorem swapPop_mem_post (pre post : List α) (x : α) (P : α → Prop) (hpost 
 
 /-! ### purge loop -/
 
-def inRange (ps pe : Nat) (a : Addr) : Bool := decide (ps ≤ a.lin ∧ a.lin < pe)
+def inRange (ps pe : Nat) (a : Addr) : Bool := decide (AwsVerif.Gen.SbaConsts.purgeHit a.lin ps pe)
 
 theorem purgeStep_at (ps pe : Nat) (pre post : List Addr) (x : Addr) :
     purgeStep ps pe (pre ++ x :: post) pre.length =
@@ -72,12 +72,11 @@ theorem purgeStep_at (ps pe : Nat) (pre post : List Addr) (x : Addr) :
       else pre ++ x :: post := by
   simp [purgeStep, inRange]
 
-theorem purgeStep_none (ps pe : Nat) (hps : 0 < ps) (l : List Addr) (idx : Nat) (h : l.length ≤ idx) :
-    purgeStep ps pe l idx = l := by
+theorem purgeStep_none (ps pe : Nat) (hps : ¬ AwsVerif.Gen.SbaConsts.purgeHit 0 ps pe) (l : List Addr) (idx : Nat)
+    (h : l.length ≤ idx) : purgeStep ps pe l idx = l := by
   have : l[idx]? = none := by simp [h]
   simp only [purgeStep, this]
-  rw [if_neg]
-  omega
+  rw [if_neg hps]
 
 /-- processing indices `pre.length, …, 0` when everything behind is already clean -/
 theorem purgeLoop_aux (ps pe : Nat) :
@@ -146,9 +145,9 @@ theorem purgeLoop_aux (ps pe : Nat) :
       · exact hpost a h
 
 /-- the purge loop as written (`chunk_idx` from `length` down to 0) removes exactly the chunks
-inside `[ps, pe)`, up to order; `0 < ps` because the failed `get_at` at `chunk_idx = length`
-leaves `chunk = NULL` -/
-theorem purgeLoop_perm (ps pe : Nat) (hps : 0 < ps) (l : List Addr) :
+the (generated) range test accepts, up to order; NULL must fail the test because the failed `get_at`
+at `chunk_idx = length` leaves `chunk = NULL` -/
+theorem purgeLoop_perm (ps pe : Nat) (hps : ¬ AwsVerif.Gen.SbaConsts.purgeHit 0 ps pe) (l : List Addr) :
     (purgeLoop ps pe l.length l).Perm (l.filter (fun a => !inRange ps pe a)) := by
   rcases eq_nil_or_snoc l with h | ⟨pre, x, h⟩
   · subst h
